@@ -17,6 +17,6 @@ for mid in sys.argv[1:]:
         if m.get("breaks_property") == prop:
             prev.append(m["needs_to_manifest"])
     p = T.replace("WORKTREE", wt).replace("PROPERTY_TEXT", text)
-    p += "\n\nADDITIONAL REQUIREMENT for this instance: several engineers have already produced changes for this property. The situations THEIR changes needed in order to manifest were: " + " || ".join(prev) + ". Yours must be of a DIFFERENT kind, live in a different mechanism/site, and need a DIFFERENT kind of situation. Make it HARD to find: prefer a defect that needs two cooperating conditions, a particular sequence of calls, state carried between calls, a value at the exact edge of a range in one variant or one size only, or two code sites that each look fine alone. Assume the checker already uses: exhaustive small cases, boundary values of every field, structured hostile inputs, forced retry branches, call histories mixing both parameter sets and all operations in fresh threads, searches for inputs that collide under cheap fingerprints (byte sums, std hashers, CRCs), long-lived threads with tens of thousands of calls, child processes with different environments and CPU sets, values steered to the exact edge of every documented range (including key-generation candidates and signature coefficients steered into their far tails through the randomness source), keys and inputs of one parameter set re-used in the other (zero-padded, doubled, truncated), fresh processes whose first operation is made by many threads at once, sizes far beyond what the library itself uses (10^5 elements, 10^5-bit encodings), objects compared and re-encoded after they have been used, every input offered twice in a row and rejected inputs followed by valid ones, operations run while a thread is being torn down, builds of the library without optimisation, complete key-generation candidates dictated through the randomness source (including ones that vanish at a chosen NTT slot or have a chosen norm), generator streams that agree only on small windows, tens of thousands of fresh processes, hundreds of thousands of repetitions of one call, inputs placed at odd memory offsets, shared objects first used by many threads at once, caught panics between calls, processes paused for minutes, counts of created objects around powers of two, complex-valued and nearly-symmetric transform inputs, operands solved from congruences to hit carry edges, many threads, several hundred keys, and statistical tests over thousands of signatures. It must still be demonstrable by your test in reasonable time (a few minutes at most). IMPORTANT: base your work on the current HEAD of the worktree (it already contains extra commits that only add code under the verif-hooks feature)."
+    p += "\n\nADDITIONAL REQUIREMENT for this instance: several engineers have already produced changes for this property. The situations THEIR changes needed in order to manifest were: " + " || ".join(prev) + ". Yours must be of a DIFFERENT kind, live in a different mechanism/site, and need a DIFFERENT kind of situation. Make it HARD to find: prefer a defect that needs two cooperating conditions, a particular sequence of calls, state carried between calls, a value at the exact edge of a range in one variant or one size only, or two code sites that each look fine alone. Assume the checker already uses: exhaustive small cases, boundary values of every field, structured hostile inputs, forced retry branches, call histories mixing both parameter sets and all operations in fresh threads, searches for inputs that collide under cheap fingerprints (byte sums, std hashers, CRCs), long-lived threads with tens of thousands of calls, child processes with different environments and CPU sets, values steered to the exact edge of every documented range (including key-generation candidates and signature coefficients steered into their far tails through the randomness source), keys and inputs of one parameter set re-used in the other (zero-padded, doubled, truncated), fresh processes whose first operation is made by many threads at once, sizes far beyond what the library itself uses (10^5 elements, 10^5-bit encodings), objects compared and re-encoded after they have been used, every input offered twice in a row and rejected inputs followed by valid ones, operations run while a thread is being torn down, builds of the library without optimisation, complete key-generation candidates dictated through the randomness source (including ones that vanish at a chosen NTT slot or have a chosen norm), generator streams that agree only on small windows, tens of thousands of fresh processes, hundreds of thousands of repetitions of one call, inputs placed at odd memory offsets, shared objects first used by many threads at once, caught panics between calls, processes paused for minutes, counts of created objects around powers of two, complex-valued and nearly-symmetric transform inputs, operands solved from congruences to hit carry edges, every message length up to 8 KiB, signatures made while a thread unwinds, centres a hair below integers, single tall coefficients around every bound, many threads, several hundred keys, and statistical tests over thousands of signatures. It must still be demonstrable by your test in reasonable time (a few minutes at most). IMPORTANT: base your work on the current HEAD of the worktree (it already contains extra commits that only add code under the verif-hooks feature)."
     open("/tmp/mut/prompt_%s.txt" % mid, "w").write(p)
     print(mid, len(prev), "previous")
